@@ -302,6 +302,7 @@ func handleDisagreement[T any](c *Ctx, s *Spec[T], t T) {
 func RunSpec[T any](c *Ctx, s *Spec[T], n int) {
 	if c.ReplayIn != "" {
 		var doc struct {
+			What string          `json:"theorem_or_correspondence"`
 			Case json.RawMessage `json:"case"`
 		}
 		b, err := os.ReadFile(c.ReplayIn)
@@ -310,6 +311,9 @@ func RunSpec[T any](c *Ctx, s *Spec[T], n int) {
 		}
 		if err := json.Unmarshal(b, &doc); err != nil {
 			fatal("replay: %v", err)
+		}
+		if doc.What != "" && doc.What != s.What {
+			return // the replay belongs to another correspondence of this property
 		}
 		var t T
 		if err := json.Unmarshal(doc.Case, &t); err != nil {
